@@ -185,3 +185,12 @@ pub fn quiet_panics() {
 pub fn u64s(v: &Value) -> Vec<u64> {
     v.as_array().map(|a| a.iter().map(|x| x.as_u64().unwrap_or(0)).collect()).unwrap_or_default()
 }
+
+/// Wall-clock watchdog: a run that exceeds it is a tool error (exit 3), never a verdict.
+pub fn watchdog(secs: u64) {
+    std::thread::spawn(move || {
+        std::thread::sleep(std::time::Duration::from_secs(secs));
+        eprintln!("WATCHDOG: driver exceeded {secs}s of wall-clock time");
+        std::process::exit(3);
+    });
+}
